@@ -483,9 +483,34 @@ func init() {
 			return nil
 		},
 		Once:  c04Probes,
-		Cases: func(c *mon.Ctx) int { return nLattice + nSeeds + nMut },
+		Cases: func(c *mon.Ctx) int { return nLattice + nSeeds + nMut + c04Directed(c) },
 		RunCase: func(c *mon.Ctx, i int) {
 			rng := c.Rng(i, 0)
+			if i >= nLattice+nSeeds+nMut {
+				// directed families (small ones completely, a stride of the big ones): shapes whose rule bodies return
+				// long, unusual or hostile details - what the framework reports must be what the body returned
+				dC, tail, j := directedCount(c), directedSmallTail(c), i-nLattice-nSeeds-nMut
+				k := dC - 1 - j
+				if j >= tail {
+					k = dC - tail - 1 - (j-tail)*c.Pick(23, 3) - int(uint64(c.Seed)%uint64(c.Pick(23, 3)))
+				}
+				if k < 0 {
+					return
+				}
+				o, desc := directedCase(c, k)
+				if o == nil {
+					return
+				}
+				var fp *scopeFacts
+				if o.Kind == corpus.Cert {
+					f := factsFromParsed(o.Cert)
+					fp = &f
+				}
+				c04Trace(c, o, fp, c04CfgFor(rng), "directed: "+desc)
+				c.R.Count("directed_traced", 1)
+				c.CountDistinct(o.DER)
+				return
+			}
 			if i < nLattice {
 				k := i
 				if !c.Thorough() {
@@ -563,3 +588,7 @@ func init() {
 }
 
 var _ = time.Now
+
+func c04Directed(c *mon.Ctx) int {
+	return directedSmallTail(c) + (directedCount(c)-directedSmallTail(c))/c.Pick(23, 3)
+}
